@@ -457,9 +457,19 @@ pub fn c03(rng: &mut Rng, thorough: bool, idx: u64) -> Spec {
     mix.max_rows = if thorough { 12 } else { 6 };
     let net = net_swarm(rng);
     let o = BaseOpts { clients: (1, if thorough { 4 } else { 3 }), txns: (1, if thorough { 8 } else { 5 }), pool_size: (1, 3), replicas: (0, 1), session_mode_p: 0.3, parser_p: 0.2 };
-    let (mut spec, _cfg) = base_world(rng, &o, &mix, net);
-    let _ = idx;
+    let (mut spec, mut cfg) = base_world(rng, &o, &mix, net);
     spec.family = "relay".into();
+    if idx % 5 == 2 {
+        // "independent of ... TLS": the pooler offers TLS (the repository's test certificate) and
+        // most clients take it; what they send and receive is compared in the clear as always
+        cfg.set("tls_certificate", "\"/repo/.circleci/server.cert\"");
+        cfg.set("tls_private_key", "\"/repo/.circleci/server.key\"");
+        spec.config_toml = cfg.render();
+        for c in spec.clients.iter_mut() {
+            c.tls = rng.chance(0.75);
+        }
+        spec.family = "relay/tls".into();
+    }
     spec.params.insert("all_forwarded".into(), serde_json::json!(true));
     spec.params.insert("all_tagged".into(), serde_json::json!(true));
     spec.oracles = vec!["c03_relay".into(), "liveness".into()];
